@@ -196,7 +196,8 @@ class Subject:
         if m == "disc":
             from skactiveml.classifier import ParzenWindowClassifier
 
-            return {"discriminator": ParzenWindowClassifier(metric_dict={"gamma": 0.5}, random_state=0)}
+            # the sentinel is set consistently on the strategy and on every model that is handed to it (C09)
+            return {"discriminator": ParzenWindowClassifier(metric_dict={"gamma": 0.5}, missing_label=missing_label, random_state=0)}
         raise KeyError(m)
 
     def query_kwargs(self, X, missing_label=NAN, classes=(0, 1)):
